@@ -885,6 +885,7 @@ func check16SpecialSchemeEffect(c Case16, r *core.Rec) {
 	// the derived accessors follow the configured table too: no port means the ADDED scheme's default
 	wantPort := du.DecodedPort()
 	if du.Port() == "" {
+		wantPort = 0 // a scheme added with "" has no default port
 		if n, err := strconv.Atoi(port); err == nil {
 			wantPort = n
 		}
@@ -1066,10 +1067,13 @@ func Gen16(t *rapid.T) Case16 {
 		}
 		c.Opts = []Opt16{{Name: "skip-equals"}}
 	case "special-scheme-effect":
-		o := Opt16{Name: "special-schemes", Str: gen.Pick(t, "newscheme", []string{"gopher", "foo", "zz"}), Port: gen.Pick(t, "newport", []string{"70", "1234"})}
+		o := Opt16{Name: "special-schemes", Str: gen.Pick(t, "newscheme", []string{"gopher", "foo", "zz"}), Port: gen.Pick(t, "newport", []string{"70", "1234", ""})}
 		c.Opts = []Opt16{o}
 		host := gen.Pick(t, "host", []string{"h", "example.com", "EXAMPLE.com", "1.2.3.4", "0x7f.1", "[::1]", "a b", ""})
-		port := gen.Pick(t, "port", []string{"", ":{DP}", ":81", ":", ":0{DP}"})
+		port := gen.Pick(t, "port", []string{"", ":{DP}", ":81", ":", ":0{DP}", ":0", ":00"})
+		if o.Port == "" {
+			port = gen.Pick(t, "portNoDefault", []string{"", ":0", ":81", ":", ":00", ":65535"})
+		}
 		sep := gen.Pick(t, "sep", []string{"://", ":\\\\", ":/", ":", ":///", ":/\\"})
 		path := gen.Pick(t, "path", []string{"/", "/p", "\\p\\q", "/a/../b", "", "/p?q#f", "/C|/x", "/%2e%2E/"})
 		c.Input = B(sep + host + port + path)
